@@ -54,6 +54,30 @@ theorem isCeilDiv_unique (a b q₁ q₂ : Int) (h₁ : IsCeilDiv a b q₁) (h₂
         rw [Int.add_mul, Int.one_mul, Int.mul_neg, Int.mul_neg] at this; omega
       · omega
 
+/-- the truncated remainder has the sign of the dividend (or is zero) -/
+theorem tmod_sign (a b : Int) : (0 ≤ a → 0 ≤ Int.tmod a b) ∧ (a ≤ 0 → Int.tmod a b ≤ 0) := by
+  constructor
+  · intro h; exact Int.tmod_nonneg b h
+  · intro h
+    have := Int.tmod_nonneg (a := -a) b (by omega)
+    rw [Int.neg_tmod] at this; omega
+
+/-- the truncated remainder is smaller in magnitude than the divisor -/
+theorem tmod_abs_lt (a b : Int) : (0 < b → Int.tmod a b < b ∧ -b < Int.tmod a b) ∧ (b < 0 → Int.tmod a b < -b ∧ b < Int.tmod a b) := by
+  constructor
+  · intro h
+    have h1 := Int.tmod_lt_of_pos a h
+    have h2 := Int.tmod_lt_of_pos (-a) h
+    rw [Int.neg_tmod] at h2
+    omega
+  · intro h
+    have hp : 0 < -b := by omega
+    have h1 := Int.tmod_lt_of_pos a hp
+    have h2 := Int.tmod_lt_of_pos (-a) hp
+    rw [Int.tmod_neg] at h1 h2
+    rw [Int.neg_tmod] at h2
+    omega
+
 /-- the signed algorithm (after the repair): truncated quotient, plus one iff the remainder is
 non-zero and has the sign of the divisor. -/
 theorem ceil_signed (a b : Int) (hb : b ≠ 0) :
